@@ -508,6 +508,25 @@ fn account_needles(a: &Account) -> Vec<Needle> {
     v
 }
 
+thread_local! {
+    /// run-level store for C17: secret material of every delivery of the run, and everything the
+    /// run emitted, so that material of one validation showing up in the output of *another* one
+    /// (state carried between validations) is found as well
+    static C17_STORE: std::cell::RefCell<(Vec<Needle>, Vec<(String, String)>, Vec<Vec<u8>>)> = const { std::cell::RefCell::new((Vec::new(), Vec::new(), Vec::new())) };
+}
+
+fn c17_cross_scan(out: &mut RunOut) {
+    let (needles, hays, wires) = C17_STORE.with(|s| std::mem::take(&mut *s.borrow_mut()));
+    // material a client presented on the wire anywhere in this run is not secret any more
+    let needles: Vec<Needle> = needles.into_iter().filter(|n| !wires.iter().any(|w| contains(w, &n.bytes) || contains(&w.to_ascii_lowercase(), &n.bytes.to_ascii_lowercase()))).collect();
+    if !needles.is_empty() && !hays.is_empty() {
+        out.probe("cross_validation_scan");
+    }
+    for (name, hay) in &hays {
+        scan(out, &format!("{} (material of another validation of the same run)", name), hay, &needles);
+    }
+}
+
 fn judge_c17(cx: &DeliveryCtx, out: &mut RunOut) {
     let mut needles: Vec<Needle> = Vec::new();
     for a in cx.accounts {
@@ -549,14 +568,18 @@ fn judge_c17(cx: &DeliveryCtx, out: &mut RunOut) {
             }
         }
     }
+    let mut hays: Vec<(String, String)> = Vec::new();
     match cx.out {
         ValOut::Err(e) => {
             scan(out, "error Display", &e.display, &needles);
             scan(out, "error Debug", &e.debug, &needles);
+            hays.push(("error Display".into(), e.display.clone()));
+            hays.push(("error Debug".into(), e.debug.clone()));
             out.probe("error_scanned");
         }
         ValOut::Ok(r) => {
             scan(out, "SigV4AuthenticatorResponse Debug", &r.response_debug, &needles);
+            hays.push(("SigV4AuthenticatorResponse Debug".into(), r.response_debug.clone()));
             out.probe("response_scanned");
         }
         _ => {}
@@ -602,8 +625,27 @@ fn judge_c17(cx: &DeliveryCtx, out: &mut RunOut) {
                 out.probe("canonical_and_authenticator_debug_scanned");
             }
             scan(out, "Debug of CanonicalRequest/SigV4Authenticator/AuthParams", &s, &needles);
+            hays.push(("Debug of CanonicalRequest/SigV4Authenticator/AuthParams".into(), s));
         }
     }
+    // keep this delivery's signature-type needles and outputs for the cross-validation scan
+    let mut wire_bytes = cx.wire.target.clone();
+    for (_, v) in &cx.wire.headers {
+        wire_bytes.extend(v);
+    }
+    wire_bytes.extend(&cx.wire.body);
+    let presented = cx.detail.presented_signature.clone().unwrap_or_default().into_bytes();
+    C17_STORE.with(|st| {
+        let mut st = st.borrow_mut();
+        // (the wire may spell the presented signature with escapes; the decoded form counts too)
+        st.2.push(presented);
+        // what the sender put into the request as its signature (known to the sender, hence to
+        // any on-path party) even when the request is refused before that field is read
+        st.2.push(cx.msg.auth.signature.clone().into_bytes());
+        st.0.extend(needles.into_iter().filter(|n| n.what.starts_with("the correct signature")));
+        st.1.extend(hays);
+        st.2.push(wire_bytes);
+    });
 }
 
 fn run_c17(t: &mut Tape, _tier: Tier) -> RunOut {
@@ -676,7 +718,12 @@ fn run_c17(t: &mut Tape, _tier: Tier) -> RunOut {
     mix.noise = 2;
     mix.req.big_body_one_in = 0;
     let mut j = |cx: &DeliveryCtx, out: &mut RunOut| judge_c17(cx, out);
-    run_world(t, &mix, &mut j)
+    C17_STORE.with(|s| *s.borrow_mut() = (Vec::new(), Vec::new(), Vec::new()));
+    let mut out = run_world(t, &mix, &mut j);
+    // the debug-level log records of the whole run belong to the cross scan too (they are kept by
+    // the per-delivery scan only against that delivery's material)
+    c17_cross_scan(&mut out);
+    out
 }
 
 // ------------------------------------------------------------------------------------------------
@@ -1179,6 +1226,8 @@ fn c19_world(t: &mut Tape, forced: Option<(usize, bool)>) -> RunOut {
                     _ => "host;x-bogus".to_string(),
                 };
                 m.quirks.dup_header_params.push((name.to_string(), bogus, before));
+                // any number of unknown parameters around them changes nothing
+                m.quirks.header_param_fillers = [0, 0, 3, 6, 9, 14][t.below(6)];
                 accept = Some(before);
                 resign = false;
             }
@@ -1774,7 +1823,7 @@ pub fn registry() -> Vec<Profile> {
             id: "C17",
             title: "no leaks",
             run: run_c17,
-            required: &["error_scanned", "response_scanned", "derived_keys_scanned", "correct_signature_scanned", "debug_log_records_scanned", "log_records_captured", "key_type_debug_scanned", "canonical_and_authenticator_debug_scanned"],
+            required: &["error_scanned", "response_scanned", "derived_keys_scanned", "correct_signature_scanned", "debug_log_records_scanned", "log_records_captured", "key_type_debug_scanned", "canonical_and_authenticator_debug_scanned", "cross_validation_scan"],
             rule: "history check over everything a run emitted: all `log` records at debug level or above (the capturing logger is enabled at trace so nothing is filtered before the scanner), every returned error's Display and Debug, Debug of the success response, Debug/Display of every key type, provider request/response (and builders), CanonicalRequest, SigV4Authenticator and AuthParams; needles: each account's secret, 'AWS4'+secret, kDate/kRegion/kService/kSigning of the scope in play (old and rotated secret), the correct signature of a refused request — raw, hex (both cases), base64 (std/url) and decimal-list form; workload: tampered, defective, provider-failing and accepted deliveries. Secrets shorter than 8 bytes are not searched for (coincidental matches).",
             quick_runs: 48000,
             thorough_runs: 576000,
